@@ -250,7 +250,13 @@ pub fn run(ctx: &Ctx) -> (Spec, Report) {
                     (*l, c)
                 })
                 .collect();
-            Gen { model: prog, files: vec![SrcFile { path: "gen_crate/src/lib.rs".into(), source: src }], multi, langs }
+            // folder output: a second crate that the first one refers to, so that import lines are generated as well
+            let mut files = vec![SrcFile { path: "gen_crate/src/lib.rs".into(), source: src }];
+            if multi {
+                files[0].source = format!("use other_crate::QotherThing;\n{}\n#[typeshare]\npub struct QusesOther {{ pub o: QotherThing, pub list: Vec<other_crate::QotherSecond> }}\n", files[0].source);
+                files.push(SrcFile { path: "other_crate/src/lib.rs".into(), source: "#[typeshare]\npub struct QotherThing { pub z: u8 }\n#[typeshare]\npub enum QotherSecond { A, B }\n".into() });
+            }
+            Gen { model: prog, files, multi, langs }
         },
         judge,
     );
